@@ -220,3 +220,7 @@ fn('emmet.output_stream:attr_name', props=['C12', 'C03'],
    requires=[],
    ensures=["same_str(result, str_case(name, config.options.get('output.attributeCase')))"],
    modifies=[])
+
+# (fourth attempt, third session, after the quantifier-free subset attempt was added to the solver discipline:
+#  67 of 642 obligations within 430 s -- `os_ok(out)` / `value_ok(node.value)` are quantified goals, the new attempt
+#  does not apply to them; withdrawn a fourth time.  The clause stays with the bounded clause indent-equals-depth.)
